@@ -106,7 +106,8 @@ def ensure_facts(verbose=True):
         open(os.path.join(fdir, 'OK'), 'w').write(th)
         # keep only the most recent fact sets
         allsets = sorted(glob.glob(os.path.join(CACHE, 'facts', '*')), key=os.path.getmtime)
-        for old in allsets[:-140]:
+        keep = int(os.environ.get('NV_FACT_SETS', '16'))   # tools/regress_all.sh raises this: one set per kept patch
+        for old in allsets[:-keep]:
             shutil.rmtree(old, ignore_errors=True)
         dt = time.time() - t0
         if verbose:
